@@ -27,8 +27,8 @@ type Cluster struct {
 	OnCommit func(r *Replica, height int64)
 
 	// canonical chain
-	Blocks   []*ChainBlock // index = height-1
-	SimTime  time.Time     // global simulated clock
+	Blocks   []*ChainBlock                  // index = height-1
+	SimTime  time.Time                      // global simulated clock
 	ValPrivs map[string]tmed.PrivKeyEd25519 // tendermint address (hex) -> key, for every validator key the run knows
 	Skew     map[string]time.Duration       // per-validator clock skew
 }
